@@ -1,5 +1,6 @@
 import MosnVerif.Drive.Util
 import MosnVerif.Model.UpgTiming
+import MosnVerif.Model.HandoverQueue
 /-! driver of the C11 round-5 kinds: `st` (start path -> TransferTimeout), `hw` (writes during a hand-over), `rh`
 (ReconfigureHandler against a scripted new MOSN).  Core Lean only. -/
 namespace MosnVerif.Drive.C11U
@@ -30,5 +31,23 @@ def st (c impl : List String) : String :=
       | _, _, _ => false
     verdict (joinWith " " impl == out) spec out
   | _, _ => "E E bad-case"
+
+/-- `hw n= sz= => adopted= inwin= wfin= werr= got= inorder= clean= lost=`.  Reference (literal): the connection was
+adopted, every one of the n writes reached the client exactly once, in the order written, no write failed. -/
+def hw (c impl : List String) : String :=
+  match kvNat c "n" with
+  | some n =>
+    let ws := List.range n
+    let s1 := Model.HandoverQueue.runG ws (Model.HandoverQueue.harnessWindow n)
+    let s2 := Model.HandoverQueue.run Gen.HandoverQueue.enqueueMode Gen.HandoverQueue.writeBufferCap s1 (Model.HandoverQueue.harnessRest n)
+    let lost := ws.filter (fun i => !s2.forwarded.contains i)
+    let lostTok := if lost.isEmpty then "-" else joinWith "," (lost.map toString)
+    let wfin := if s2.pending.isEmpty then 1 else 0
+    let out := s!"adopted=1 inwin={n - s1.pending.length} wfin={wfin} werr={s2.dropped.length} got={s2.forwarded.length} inorder=1 clean=1 lost={lostTok}"
+    let g (k : String) := (kv impl k).getD "?"
+    let spec := g "adopted" == "1" && g "got" == toString n && g "inorder" == "1" && g "clean" == "1" && g "werr" == "0"
+      && g "lost" == "-" && g "wfin" == "1"
+    verdict (joinWith " " impl == out) spec out
+  | none => "E E bad-case"
 
 end MosnVerif.Drive.C11U
